@@ -918,3 +918,29 @@ def d13_retain(f, recv, elem_ty, captures, fname='verif_retain_0', call_prefix='
     lifted = 'fn %s(%s: &%s%s) -> bool %s' % (fname, var, elem_ty, params, body)
     f.log.rule('D13', f, 'retain(FnMut closure) -> take-all + push loop, closure body lifted verbatim into %s' % fname)
     return lifted
+
+
+def d3_enumerate(f):
+    """D3: `for (I, X) in EXPR.enumerate() {`  ->  `let mut verif_cntK: usize = 0; for X in EXPR { let I = verif_cntK; verif_cntK += 1;`
+    (counter incremented at the top of the body, so `break`/`return` in the body are unaffected; Enumerate counts from 0)."""
+    n = 0
+    while True:
+        t = f.text
+        mask = code_mask(t)
+        m = None
+        for x in re.finditer(r'for \((\w+), (\w+)\) in ([^\n{]+?)\.enumerate\(\)\s*\{', t):
+            if mask[x.start()]:
+                m = x
+                break
+        if m is None:
+            break
+        ind = re.search(r'[ \t]*$', t[:m.start()]).group(0)
+        cnt = 'verif_cnt%d' % n
+        new = ('let mut %s: usize = 0;\n%sfor %s in %s {\n%s    let %s = %s;\n%s    %s += 1;'
+               % (cnt, ind, m.group(2), m.group(3).strip(), ind, m.group(1), cnt, ind, cnt))
+        f.text = t[:m.start()] + new + t[m.end():]
+        n += 1
+    if n == 0:
+        f._lost('D3 for (i, x) in E.enumerate()')
+    f.log.rule('D3', f, '%d enumerate() loop(s) -> explicit counter' % n)
+    return f
